@@ -50,9 +50,25 @@ def new_state(assume=(), dotfree=()):
 
 def encrypt_paths(world, ex, inp, fkind='some', akind='some', extra=()):
     st = new_state(list(inp.assume) + list(extra))
-    res, _ = run_encrypt(world, ex, inp.proto, st, inp.K, inp.N, inp.M, opt_footer(fkind, inp.F),
-                         opt_assertion(akind, inp.A) if inp.p['assertion'] else NONE)
+    res, c1 = run_encrypt(world, ex, inp.proto, st, inp.K, inp.N, inp.M, opt_footer(fkind, inp.F),
+                          opt_assertion(akind, inp.A) if inp.p['assertion'] else NONE)
+    before = st0_value[0] if False else None
+    for s2, _ in res:
+        s2.self_cell = c1; s2.self_before = SELF_BEFORE.get(id(st))
     return res
+
+
+SELF_BEFORE = {}
+
+
+def same_value(a, b):
+    """structural equality of two executor values (z3 terms compared syntactically after simplification)"""
+    if is_expr(a) and is_expr(b): return a.eq(b) or simplify(a).eq(simplify(b))
+    if isinstance(a, tuple) and isinstance(b, tuple):
+        if len(a) != len(b): return False
+        return all(same_value(x, y) for x, y in zip(a, b))
+    if isinstance(a, (list,)) and isinstance(b, (list,)): return len(a) == len(b) and all(same_value(x, y) for x, y in zip(a, b))
+    return a == b
 
 
 def decrypt_paths(world, ex, proto, token, key_bytes, F, A, fkind='some', akind='some', assume=(), dotfree=()):
